@@ -13,8 +13,11 @@
    RemainingBytes::set_len, and the element-level operations of lists of unsized elements - insert of default-initialised
    elements, remove_range, clear - with their offset-table surgery, again at any depth.  C01_dispatcher_tie connects the
    functions the theorems are about with `exec`, the dispatcher the extracted runner executes in the correspondence check.
-   NOT covered by a theorem: keyed insertion of the Map / Set / UnsizedMap views (binary search + insert), String, non-default
-   initialisers, whole-value replacement, enums (correspondence only).
+   The keyed views (C01_keyed_...): Set / Map (sorted lists) and UnsizedMap (sorted offset table) insert and remove through the
+   binary search refine the sorted-association-list model and keep the keys strictly ascending.  Whole-value replacement
+   (set_from_owned, C01_set_data_refines) for every sub-value whose chain of first fields ends in a non-struct.
+   NOT covered by a theorem: UnsizedMap insert on an EXISTING key (replacement of the element through set_from_init),
+   UnsizedString, non-default initialisers, failing initialisers (D16), enums (correspondence only).
    Also (named ..._flat, the earlier special case): the full refinement for FLAT shapes - generated structs whose fields are
    fixed-size values, lists of any element type and prefix width, and a trailing RemainingBytes - under
    histories of insert_all / remove_range (push, insert, pop, remove, clear are instances) with interleaving
@@ -26,6 +29,8 @@ From SF Require Import Unsized.Proofs.EncodeParse Unsized.Proofs.Mem Unsized.Pro
 From SF Require Import Unsized.Proofs.Layout Unsized.Proofs.Observe Unsized.Proofs.Path Unsized.Proofs.Context Unsized.Proofs.FocusOps
   Unsized.Proofs.NotifyInside Unsized.Proofs.Resize Unsized.Proofs.GenOps Unsized.Proofs.History.
 From SF Require Import Unsized.Run Unsized.Proofs.Init Unsized.Proofs.History2 Unsized.Proofs.ExecTie.
+From SF Require Import Unsized.Proofs.ExecTie2 Unsized.Proofs.Keyed Unsized.Proofs.NotifyInside2 Unsized.Proofs.SetData.
+From SF Require Import Unsized.Proofs.History3.
 
 (* one operation: same success, and the new machine state represents the owned model's new value *)
 Theorem C01_flat_step_refines :
@@ -203,6 +208,112 @@ Theorem C01_dispatcher_tie :
     mstepG ovf t s top o = Ok r ->
     forall fuel, (length (focus_of o) < fuel)%nat -> exec fuel ovf t s top [] (enc_op o) = Ok r.
 Proof. exact exec_tie_ok. Qed.
+
+(* the dispatcher tie for the full operation set *)
+Theorem C01_dispatcher_tie_all_ops :
+  forall ovf t v s top o r,
+    RepF [] t v s top -> (exists v', ostepX (m_cap s) t v o = Some v') ->
+    mstepX ovf t s top o = Ok r ->
+    forall fuel, (length (xfocus o) < fuel)%nat -> exec fuel ovf t s top [] (enc_xop o) = Ok r.
+Proof. exact exec_tie_x_ok. Qed.
+
+(* whole-value replacement anywhere inside the value: ExclusiveWrapper::set_from_owned refines assignment *)
+Theorem C01_set_data_refines :
+  forall ovf pi t v X xv xv' s top,
+    resolve t v pi = Some (X, xv) -> headed X = true -> wf X xv' = true -> 0 < zlen (encode X xv) ->
+    RepF pi t v s top -> m_refuse s <> 1 -> m_len s + (zlen (encode X xv') - zlen (encode X xv)) <= m_cap s ->
+    exists s' top', set_data ovf t s top (mpath pi) (zlen (encode X xv')) (Ok (encode X xv')) = Ok (s', top', []) /\
+                    RepF pi t (plug t v pi xv') s' top' /\ m_cap s' = m_cap s /\ m_refuse s' = m_refuse s.
+Proof. exact set_data_general. Qed.
+
+(* the keyed views: binary search, then the list operation; the keys stay strictly ascending *)
+Theorem C01_keyed_lower_bound :
+  forall keys k, strictly_ascending keys = true ->
+    let '(idx, found) := lower_bound keys k 0 in
+    0 <= idx <= zlen keys /\ Forall (fun x => x < k) (firstn (Z.to_nat idx) keys) /\
+    Forall (fun x => k <= x) (skipn (Z.to_nat idx) keys) /\
+    (found = true <-> nth_error keys (Z.to_nat idx) = Some k) /\ (found = false -> ~ In k keys).
+Proof. exact lower_bound_spec. Qed.
+
+Theorem C01_keyed_set_insert :
+  forall pi t v c lw items x,
+    resolve t v (pi ++ [SF 0]) = Some (TList c lw, VList items) ->
+    strictly_ascending (map le_decode items) = true ->
+    forall s top idx,
+    RepF (pi ++ [SF 0]) t v s top -> item_ok c x ->
+    lower_bound (map le_decode items) (le_decode x) 0 = (idx, false) ->
+    m_refuse s <> 1 -> m_len s + Z.of_nat (fsize c) <= m_cap s ->
+    zlen items + 1 < 256 ^ Z.of_nat lw -> Z.of_nat (fsize c) * (zlen items + 1) < U64_LIMIT ->
+    let items' := firstn (Z.to_nat idx) items ++ x :: skipn (Z.to_nat idx) items in
+    exists s' top',
+      set_insert_op t s top (mpath pi) c lw x = Ok (s', top', [1]) /\
+      RepF (pi ++ [SF 0]) t (plug t v (pi ++ [SF 0]) (VList items')) s' top' /\
+      m_cap s' = m_cap s /\ m_refuse s' = m_refuse s /\ strictly_ascending (map le_decode items') = true.
+Proof. exact set_insert_absent. Qed.
+
+Theorem C01_keyed_map_overwrite :
+  forall pi t v c lw items key,
+    resolve t v (pi ++ [SF 0]) = Some (TList c lw, VList items) ->
+    strictly_ascending (lkeys (length key) items) = true ->
+    forall value, item_ok c (key ++ value) ->
+    forall s top idx,
+    RepF (pi ++ [SF 0]) t v s top ->
+    lower_bound (lkeys (length key) items) (le_decode key) 0 = (idx, true) ->
+    let items' := firstn (Z.to_nat idx) items ++ (key ++ value) :: skipn (S (Z.to_nat idx)) items in
+    exists s',
+      map_insert_op t s top (mpath pi) c lw key value = Ok (s', top, [1]) /\
+      RepF (pi ++ [SF 0]) t (plug t v (pi ++ [SF 0]) (VList items')) s' top /\
+      m_cap s' = m_cap s /\ m_refuse s' = m_refuse s /\
+      lkeys (length key) items' = lkeys (length key) items /\ strictly_ascending (lkeys (length key) items') = true.
+Proof. exact map_insert_present. Qed.
+
+Theorem C01_keyed_unsized_map_insert :
+  forall pi t v it k items key,
+    resolve t v (pi ++ [SF 0]) = Some (TUList it k, VUList items) -> k <> 0%nat ->
+    forall ovf s top idx,
+    RepF (pi ++ [SF 0]) t v s top -> zero_ok it = true -> 0 <= key < 256 ^ Z.of_nat k ->
+    lower_bound (ukeys items) key 0 = (idx, false) ->
+    m_refuse s <> 1 -> m_len s + (zlen (encode it (dflt it)) + (4 + Z.of_nat k)) <= m_cap s ->
+    let items' := firstn (Z.to_nat idx) items ++ (le_bytes k key, dflt it) :: skipn (Z.to_nat idx) items in
+    exists s' top',
+      umap_insert_op ovf t s top (mpath pi) it k key 0 = Ok (s', top', [1]) /\
+      RepF (pi ++ [SF 0]) t (plug t v (pi ++ [SF 0]) (VUList items')) s' top' /\
+      m_cap s' = m_cap s /\ m_refuse s' = m_refuse s /\ strictly_ascending (ukeys items') = true.
+Proof. exact umap_insert_absent. Qed.
+
+Theorem C01_keyed_unsized_map_remove :
+  forall pi t v it k items key,
+    resolve t v (pi ++ [SF 0]) = Some (TUList it k, VUList items) -> k <> 0%nat ->
+    forall s top idx,
+    RepF (pi ++ [SF 0]) t v s top -> lower_bound (ukeys items) key 0 = (idx, true) ->
+    let items' := firstn (Z.to_nat idx) items ++ skipn (Z.to_nat (idx + 1)) items in
+    exists s' top',
+      umap_remove_op t s top (mpath pi) k key = Ok (s', top', [1]) /\
+      RepF (pi ++ [SF 0]) t (plug t v (pi ++ [SF 0]) (VUList items')) s' top' /\
+      m_cap s' = m_cap s /\ m_refuse s' = m_refuse s /\ strictly_ascending (ukeys items') = true.
+Proof. exact umap_remove_present. Qed.
+
+(* ONE history theorem for everything above: List / trailing-bytes / list-of-unsized-elements operations, whole-value
+   replacement, and the keyed views (Set / Map / UnsizedMap with binary search), at any nesting depth, in any order;
+   the machine returns the owned model's observation of every step ([0] / [1] of the keyed operations) *)
+Theorem C01_full_step_refines :
+  forall ovf t v s top pi0 o v' obs,
+    RepF pi0 t v s top -> m_refuse s <> 1 -> ostepY (m_cap s) t v o = Some (v', obs) ->
+    exists s' top' pi', mstepY ovf t s top o = Ok (s', top', obs) /\ RepF pi' t v' s' top' /\
+                        m_cap s' = m_cap s /\ m_refuse s' = m_refuse s.
+Proof. exact ystep_refines. Qed.
+
+Theorem C01_full_run_refines :
+  forall ovf t h v s top pi0 v' obss,
+    RepF pi0 t v s top -> m_refuse s <> 1 -> orunY (m_cap s) t v h = Some (v', obss) ->
+    exists s' top' pi', mrunY ovf t s top h = Ok (s', top', obss) /\ RepF pi' t v' s' top' /\ m_cap s' = m_cap s.
+Proof. exact yrun_refines. Qed.
+
+(* key-ordered containers stay strictly sorted and duplicate free: a keyed step of the owned model is only defined on a
+   sorted view and leaves the view sorted *)
+Theorem C01_keyed_views_stay_sorted :
+  forall cap t v o v' obs, ostepY cap t v o = Some (v', obs) -> sorted_view t v o /\ sorted_view t v' o.
+Proof. intros. split; [eapply ostepY_domain|eapply ostepY_keeps_sorted]; eauto. Qed.
 
 Example C01_nonvacuous_all_ops :
   let et := TStruct [TFixed (FAny 2); TList (FAny 1) 1] in
